@@ -7,6 +7,8 @@ mod bookprops;
 mod c07;
 mod marketx;
 mod envprops;
+mod envx;
+mod scriptrng;
 mod monitors;
 mod ops;
 mod refmodel;
@@ -31,10 +33,15 @@ fn main() {
         "C05" => {
             let mut out = report::Outcome::new("C05", tier, "model_checking");
             bookprops::c05_book(&mut out, bookprops::thorough(tier));
+            envprops::c05_env_part(&mut out, bookprops::thorough(tier));
             out.finish()
         }
         "C06" => bookprops::c06(tier),
         "C07" => c07::c07(tier),
+        "C08" => envprops::c08(tier),
+        "C10" => envprops::c10(tier),
+        "C11" => envprops::c11(tier),
+        "C14" => envprops::c14(tier),
         "C12" => bookprops::c12(tier),
         "C13" => bookprops::c13(tier),
         other => {
